@@ -16,7 +16,7 @@ func (h *H) second(n int) {
 	c := h.c
 	rng := c.Rng
 	for it := 0; it < n; it++ {
-		cfg := Cfg{Active: false, Sid: uint16(1 + rng.Intn(1000)), Validate: rng.Intn(2) == 0, Equip: rng.Intn(2) == 0}
+		cfg := Cfg{Active: false, Sid: uint16(1 + rng.Intn(1000)), Validate: rng.Intn(2) == 0, Equip: rng.Intn(2) == 0, Trace: it%2 == 1}
 		r, err := newRig(cfg)
 		if err != nil {
 			h.fatal("rig: %v", err)
@@ -28,7 +28,7 @@ func (h *H) second(n int) {
 		caseLine := func() string {
 			return fmt.Sprintf("P %s 0 | %s | %s", cfg.M(), strings.Join(evs, " ; "), strings.Join(obs, " ; "))
 		}
-		fail := func(what string) { c.Fail("second connection: "+what, caseLine()) }
+		fail := func(what string) { c.Fail("second connection: "+what, caseLine()+cfg.Tag()) }
 		o := newOracle(cfg, 0)
 
 		first, err := r.Connect(stepTimeout)
